@@ -137,9 +137,12 @@ let display_pred (s : str) : (int -> bool) =
     fun v -> List.exists (fun conj -> List.for_all (fun p -> p v) conj) segs
 
 let fail p why = Some (p, why)
+(* [only]: evaluate the checks of one property only, so that a failure of one property does not hide another *)
+let only : str option ref = ref None
+let on p = (match !only with None -> true | Some q -> q = p)
 
-let oracle (c : Sx.t) (rust : str) : (str * str) option =
-  if rust = "panic" then fail "C10" "panic (check_invariants or unreachable) on a range built from the public constructors" else
+let oracle1 (c : Sx.t) (rust : str) : (str * str) option =
+  if rust = "panic" then (if on "C10" then fail "C10" "panic (check_invariants or unreachable) on a range built from the public constructors" else None) else
   let obs = Sx.list (Sx.parse ("(" ^ rust ^ ")")) in
   match Sx.list c with
   | [Sx.A "r1"; k; _tree; segs] ->
@@ -148,22 +151,23 @@ let oracle (c : Sx.t) (rust : str) : (str * str) option =
     let want = segs_mask (parse_segs segs) k in
     let ma = fint obs "ma" and mc = fint obs "mc" in
     let built = parse_segs (field obs "built") in
-    if ma <> want then fail "C10" "range built from public constructors does not contain the intended points"
-    else if mc <> (full land (lnot ma)) then fail "C10" "complement is not the pointwise complement"
-    else if Sx.to_string (field obs "cc") <> Sx.to_string (field obs "built") then fail "C10" "double complement is not the identity (canonical form lost)"
-    else if Sx.to_string (field obs "built") <> Sx.to_string segs then fail "C10" "same set, different representation: result is not in canonical form"
-    else if fbool obs "empty" <> (ma = 0) then fail "C15" "is_empty disagrees with membership"
-    else if (match field obs "single" with
+    if on "C10" && (ma <> want) then fail "C10" "range built from public constructors does not contain the intended points"
+    else if on "C10" && (mc <> (full land (lnot ma))) then fail "C10" "complement is not the pointwise complement"
+    else if on "C10" && (Sx.to_string (field obs "cc") <> Sx.to_string (field obs "built")) then fail "C10" "double complement is not the identity (canonical form lost)"
+    else if on "C10" && (Sx.to_string (field obs "built") <> Sx.to_string segs) then fail "C10" "same set, different representation: result is not in canonical form"
+    else if on "C15" && (fbool obs "empty" <> (ma = 0)) then fail "C15" "is_empty disagrees with membership"
+    else if on "C15" && (match field obs "single" with
              | Sx.L [Sx.A "some"; v] -> built <> [(Incl (z_of_int (Sx.int v)), Incl (z_of_int (Sx.int v)))]
              | _ -> (match built with [(Incl a, Incl b)] -> a = b | _ -> false))
     then fail "C15" "as_singleton is not Some(v) exactly for {v}"
-    else if (match field obs "bounding" with
+    else if on "C15" && (match field obs "bounding" with
              | Sx.A "none" -> built <> []
              | Sx.L [Sx.A "some"; s; e] ->
                built = [] || not (List.for_all (fun p -> not (List.exists (fun sg -> seg_has sg p) built)
                                                       || seg_has (parse_bound s, parse_bound e) p) (probes k))
              | _ -> true)
     then fail "C15" "bounding_range is None for a non-empty range or misses a contained version"
+    else if not (on "C15") then None
     else begin
       let disp = string_of_text (text_of_sx (field obs "disp")) in
       match (try Some (display_pred disp) with _ -> None) with
@@ -176,24 +180,24 @@ let oracle (c : Sx.t) (rust : str) : (str * str) option =
     let ma = fint obs "ma" and mb = fint obs "mb" and mu = fint obs "mu" and mi = fint obs "mi" in
     let dj = fbool obs "dj" and ss = fbool obs "ss" and eq = fbool obs "eq" in
     let cmp = Sx.atom (field obs "cmp") and pcmp = Sx.atom (field obs "pcmp") in
-    if mu <> (ma lor mb) then fail "C10" "union is not the pointwise union"
-    else if mi <> (ma land mb) then fail "C10" "intersection is not the pointwise intersection"
-    else if dj <> (ma land mb = 0) then fail "C10" "is_disjoint disagrees with the pointwise definition"
-    else if ss <> (ma land (lnot mb) = 0) then fail "C10" "subset_of disagrees with the pointwise definition"
-    else if eq <> (ma = mb) then fail "C10" "== is not equality of the sets of points"
-    else if fbool obs "ieqa" <> ss then fail "C10" "a∩b == a is not equivalent to subset_of"
-    else if fbool obs "iempty" <> dj then fail "C10" "a∩b == ∅ is not equivalent to is_disjoint"
-    else if (cmp = "eq") <> eq then fail "C16" "cmp is Equal but == is false (or conversely)"
-    else if pcmp <> cmp then fail "C16" "partial_cmp disagrees with cmp"
-    else if eq && not (fbool obs "heq") then fail "C16" "equal ranges hash differently"
+    if on "C10" && (mu <> (ma lor mb)) then fail "C10" "union is not the pointwise union"
+    else if on "C10" && (mi <> (ma land mb)) then fail "C10" "intersection is not the pointwise intersection"
+    else if on "C10" && (dj <> (ma land mb = 0)) then fail "C10" "is_disjoint disagrees with the pointwise definition"
+    else if on "C10" && (ss <> (ma land (lnot mb) = 0)) then fail "C10" "subset_of disagrees with the pointwise definition"
+    else if on "C10" && (eq <> (ma = mb)) then fail "C10" "== is not equality of the sets of points"
+    else if on "C10" && (fbool obs "ieqa" <> ss) then fail "C10" "a∩b == a is not equivalent to subset_of"
+    else if on "C10" && (fbool obs "iempty" <> dj) then fail "C10" "a∩b == ∅ is not equivalent to is_disjoint"
+    else if on "C16" && ((cmp = "eq") <> eq) then fail "C16" "cmp is Equal but == is false (or conversely)"
+    else if on "C16" && (pcmp <> cmp) then fail "C16" "partial_cmp disagrees with cmp"
+    else if on "C16" && (eq && not (fbool obs "heq")) then fail "C16" "equal ranges hash differently"
     else None
   | [Sx.A "r3"; _; _; _] ->
     (match obs with
      | [Sx.L [Sx.A ab; Sx.A bc; Sx.A ac]] ->
        let le x = (x = "lt" || x = "eq") in
-       if ab = "lt" && bc = "lt" && ac <> "lt" then fail "C16" "ordering is not transitive"
-       else if le ab && le bc && not (le ac) then fail "C16" "ordering is not transitive (<=)"
-       else if ab = "eq" && bc <> ac then fail "C16" "ordering is not consistent with equality"
+       if on "C16" && (ab = "lt" && bc = "lt" && ac <> "lt") then fail "C16" "ordering is not transitive"
+       else if on "C16" && (le ab && le bc && not (le ac)) then fail "C16" "ordering is not transitive (<=)"
+       else if on "C16" && (ab = "eq" && bc <> ac) then fail "C16" "ordering is not consistent with equality"
        else None
      | _ -> fail "C16" "malformed observation")
   | [Sx.A "rv"; _k; _tree; segs; vs] ->
@@ -202,17 +206,24 @@ let oracle (c : Sx.t) (rust : str) : (str * str) option =
     let a = parse_segs segs in
     let vsl = ints vs in
     let want = "b" ^ String.concat "" (List.map (fun v -> b01 (List.exists (fun sg -> seg_has sg v) a)) vsl) in
-    if each <> want then fail "C15" "contains disagrees with the segments"
-    else if many <> each then fail "C15" "contains_many differs from mapping contains"
-    else if se <> each then fail "C15" "simplify changes membership of a listed version"
-    else if List.length simp > List.length a then fail "C15" "simplify has more segments than the original"
-    else if (match a with [(Incl x, Incl y)] -> x = y | _ -> false) && simp <> a then fail "C15" "simplify changed a singleton"
-    else if not (String.contains each '1') && simp <> a then fail "C15" "simplify changed a range matching none of the versions"
+    if on "C15" && (each <> want) then fail "C15" "contains disagrees with the segments"
+    else if on "C15" && (many <> each) then fail "C15" "contains_many differs from mapping contains"
+    else if on "C15" && (se <> each) then fail "C15" "simplify changes membership of a listed version"
+    else if on "C15" && (List.length simp > List.length a) then fail "C15" "simplify has more segments than the original"
+    else if on "C15" && ((match a with [(Incl x, Incl y)] -> x = y | _ -> false) && simp <> a) then fail "C15" "simplify changed a singleton"
+    else if on "C15" && (not (String.contains each '1') && simp <> a) then fail "C15" "simplify changed a range matching none of the versions"
     else None
   | [Sx.A "rb"; s; e; _] ->
     let r = parse_segs (field obs "r") in
     let s = parse_bound s and e = parse_bound e in
-    if Sx.atom (field obs "contains") <> Sx.atom (field obs "std") then fail "C15" "from_range_bounds does not contain exactly what the std bounds contain"
-    else if (r = []) <> (not (RZ.valid_segment s e)) then fail "C15" "from_range_bounds: empty interval does not give the empty range"
+    if on "C15" && (Sx.atom (field obs "contains") <> Sx.atom (field obs "std")) then fail "C15" "from_range_bounds does not contain exactly what the std bounds contain"
+    else if on "C15" && ((r = []) <> (not (RZ.valid_segment s e))) then fail "C15" "from_range_bounds: empty interval does not give the empty range"
     else None
   | _ -> None
+
+(* every property whose checks fail on this case *)
+let oracles (c : Sx.t) (rust : str) : (str * str) list =
+  let r = List.filter_map (fun p -> only := Some p; let x = (try oracle1 c rust with e -> only := None; raise e) in only := None; x)
+      ["C10"; "C15"; "C16"] in
+  List.sort_uniq compare r
+let oracle (c : Sx.t) (rust : str) : (str * str) option = match oracles c rust with [] -> None | x :: _ -> Some x
